@@ -204,7 +204,13 @@ META = {
                 "loss: a message posted under a transaction is delivered by no step before the commit of that transaction; the commit delivers exactly the buffered posts, in posting "
                 "order per link; rollback, loss of the control link, session end and transport loss deliver nothing now or later; declared ids are pairwise different; after a "
                 "discharge every further discharge of or post under that id is refused and delivers nothing; unknown ids likewise; plain posts are delivered at once and touch "
-                "nothing else. The model is run against the real listener every run (txnm); the controller side and the full alphabet are judged by the direct oracle (txn).",
+                "nothing else. The model is run against the real listener every run (txnm); the full alphabet is judged by the direct oracle (txn). "
+                "Controller side (model Txn/Controller.v, run against the real Controller / Transaction and a scripted coordinator every run: ctlm): in every run of declare / "
+                "post / commit / rollback / discharge / drop calls, whatever the coordinator answers, every post and discharge written by a call on a handle names exactly "
+                "the id the coordinator issued to the declare call the handle came from (C18_controller_right_id_on_the_wire, _final_rollbacks); commit writes fail = false "
+                "first, rollback and drop only fail = true, and the call returns Ok exactly when the coordinator accepted, the coordinator's rejection when it rejected "
+                "(C18_controller_fail_flag_and_verdict, _declare_verdict); once a handle is committed, rolled back, dropped or its discharge accepted, no call on it in any "
+                "continuation writes a discharge again (C18_controller_discharged_at_most_once).",
         "design_ref": "DESIGN.md section 4, C18",
         "note": "Trusted: Coq kernel, extraction, scripted peers. Partial: controller side and retirements by direct oracle only. Fixed: controller calls hanging when the coordinator "
                 "detaches (bc4ca04), plain Rejected on a post lost the error (7480238), aborts lost when >128 transactions are abandoned (a8cdb59). Known findings: c18-nontx-affected, "
